@@ -77,6 +77,7 @@ type C24Scn struct {
 	Init  OptSpec   `json:"init"`
 	Steps []C24Step `json:"steps"`
 	Sched SchedCfg  `json:"sched"`
+	Two   bool      `json:"two,omitempty"`   // the updates are issued by two administrators at the same time (even/odd steps)
 	Conc  bool      `json:"conc,omitempty"`  // a second client keeps reading while the updates run
 	Reads int       `json:"reads,omitempty"` // how many READs it issues
 }
@@ -184,6 +185,55 @@ func runC24(t *testing.T, scAny any, trace bool) *Outcome {
 			readerDone <- 0
 		}
 		defer func() { simrt.Recv("c24.reader.wait", readerDone) }()
+		if sc.Two {
+			// two administrators at once: whatever order their updates take effect in, what GetExportOptions
+			// reports afterwards is what the caches and the worker pool really run with, and the server serves
+			adone := make(chan int, 2)
+			apply := func(st C24Step) {
+				switch st.Kind {
+				case "export":
+					w.NFS.UpdateExportOptions(st.Opt.export())
+				case "tuning":
+					e := st.Opt.export()
+					w.NFS.UpdateTuningOptions(func(tu *absnfs.TuningOptions) {
+						tu.TransferSize, tu.AttrCacheTimeout, tu.AttrCacheSize = e.TransferSize, e.AttrCacheTimeout, e.AttrCacheSize
+						tu.MaxWorkers, tu.DirCacheMaxEntries, tu.Timeouts = e.MaxWorkers, e.DirCacheMaxEntries, e.Timeouts
+					})
+				case "policy":
+					w.NFS.UpdatePolicyOptions(absnfs.PolicyOptions{ReadOnly: st.Opt.ReadOnly, Squash: sc.Init.Squash})
+				}
+			}
+			for a := 0; a < 2; a++ {
+				a := a
+				simrt.Go(fmt.Sprintf("c24-admin-%d", a), func() {
+					defer simrt.Send("c24.admin.done", adone, a)
+					for i, st := range sc.Steps {
+						if i%2 == a {
+							apply(st)
+						}
+					}
+				})
+			}
+			simrt.Recv("c24.admin.wait", adone)
+			simrt.Recv("c24.admin.wait", adone)
+			after := w.NFS.GetExportOptions()
+			o.Tick()
+			if ac := absnfs.VerifAttrCache(w.NFS); ac != nil && ac.MaxSize() != after.AttrCacheSize {
+				o.Vio("C24.reported-setting-not-in-force", "field=AttrCacheSize,two-administrators", "after two administrators updated the configuration at the same time GetExportOptions reports AttrCacheSize=%d, the attribute cache runs with capacity %d", after.AttrCacheSize, ac.MaxSize())
+			}
+			if wp := absnfs.VerifWorkerPool(w.NFS); wp != nil {
+				if mw, _, _ := wp.Stats(); mw != after.MaxWorkers {
+					o.Vio("C24.reported-setting-not-in-force", "field=MaxWorkers,two-administrators", "after two administrators updated the configuration at the same time GetExportOptions reports MaxWorkers=%d, the worker pool runs with %d", after.MaxWorkers, mw)
+				}
+			}
+			for k, v := range tuningView(after) {
+				if v <= 0 && k != "RateLimitConfig" {
+					o.Vio("C24.non-positive-setting-in-force", "field="+k, "after two concurrent administrators: %s = %d is in force", k, v)
+				}
+			}
+			serve("two concurrent administrators", after.ReadOnly)
+			return
+		}
 		curSquash := sc.Init.Squash
 		for i, st := range sc.Steps {
 			simrt.Sleep(time.Millisecond)
@@ -312,6 +362,7 @@ func genC24(r *simrt.Rand, tier string) any {
 	if r.Pct(20) {
 		sc.Conc, sc.Reads, sc.Sched = true, 10+r.Int(30), RandSched(r)
 		sc.Sched.HorizonS = 3600
+		sc.Two = r.Pct(40)
 	}
 	sc.Init.Squash = []string{"", "root", "none"}[r.Int(3)]
 	sc.Init.ReadOnly = false
@@ -346,7 +397,7 @@ func shrinkC24(scAny any) []any {
 
 func init() {
 	Register(&Prop{ID: "C24", Level: "exploration",
-		Rule: "one case = a server constructed from drawn options followed by 1-6 runtime updates (UpdateExportOptions, UpdateTuningOptions, UpdatePolicyOptions) whose numeric and duration fields are drawn from {zero, negative, small, normal}, Timeouts from {nil, all-zero, partial, full, negative} (in 20% of the structs every other scalar is positive, so that the time-outs or the rate-limit configuration are the only thing left to default), RateLimitConfig nil or set, Log nil / valid / a destination that cannot be opened / an unknown format, Squash equal, changed, or the same mode in another letter case; after every update: GetExportOptions is compared field by field with what absnfs.New makes of the same option values (differential against construction, no default constants mirrored), every setting in force must be positive, the attribute cache's capacity and the worker pool's size must be what GetExportOptions reports, a rejected update must leave GetExportOptions identical, a Squash change must be rejected, and a client on the simulated network must still get LOOKUP, READ (>=1 byte) and WRITE served; in 20% of the cases a second client keeps issuing READs under the seeded scheduler while the updates run - a READ that lands inside an update is served like any other; non-trivial = at least one update; distinct by event digest",
+		Rule: "one case = a server constructed from drawn options followed by 1-6 runtime updates (UpdateExportOptions, UpdateTuningOptions, UpdatePolicyOptions) whose numeric and duration fields are drawn from {zero, negative, small, normal}, Timeouts from {nil, all-zero, partial, full, negative} (in 20% of the structs every other scalar is positive, so that the time-outs or the rate-limit configuration are the only thing left to default), RateLimitConfig nil or set, Log nil / valid / a destination that cannot be opened / an unknown format, Squash equal, changed, or the same mode in another letter case; after every update: GetExportOptions is compared field by field with what absnfs.New makes of the same option values (differential against construction, no default constants mirrored), every setting in force must be positive, the attribute cache's capacity and the worker pool's size must be what GetExportOptions reports, a rejected update must leave GetExportOptions identical, a Squash change must be rejected, and a client on the simulated network must still get LOOKUP, READ (>=1 byte) and WRITE served; in 20% of the cases a second client keeps issuing READs under the seeded scheduler while the updates run - a READ that lands inside an update is served like any other, and in 40% of those the updates are issued by two administrators at the same time (afterwards the reported cache capacity and pool size must be the ones in force); non-trivial = at least one update; distinct by event digest",
 		Gen:  genC24, New: func() any { return &C24Scn{} }, Run: runC24, Shrink: shrinkC24, Real: seqReal, Stubbed: seqStubbed})
 	_ = nfsclient.NFS3_OK
 }
